@@ -25,12 +25,13 @@ class Interrupt(BaseException):
 
 
 class RShare(object):
-    __slots__ = ("value", "stamp", "marks")
+    __slots__ = ("value", "stamp", "marks", "extra")
 
     def __init__(self, value=None):
         self.value = value
         self.stamp = None     # tick index of last update (None = only inited)
         self.marks = {}
+        self.extra = {}       # fields added at run time by an injected external write (prog["inject"])
 
 
 class RMark(object):
@@ -308,7 +309,7 @@ class Ref(object):
                 return False
             if not mk.has_data:
                 return True
-            return mk.data != sh.value
+            return mk.data != (sh.value, tuple(sorted(sh.extra.items())))
         raise ValueError(k)
 
     @staticmethod
@@ -416,7 +417,7 @@ class Ref(object):
             if transit:
                 mk.used = mk.stamp
         else:
-            mk.data = sh.value
+            mk.data = (sh.value, tuple(sorted(sh.extra.items())))
             mk.has_data = True
 
     # ------------------------------------------------------------------ framer mechanics
@@ -781,7 +782,8 @@ class Ref(object):
             }
         for p in paths:
             sh = self.shares.get(p)
-            snap["shares"][p] = None if sh is None else {"items": [["value", sh.value]], "stamp": sh.stamp}
+            snap["shares"][p] = None if sh is None else {"items": [["value", sh.value]] + [[k, v] for k, v in sh.extra.items()],
+                                                         "stamp": sh.stamp}
         return snap
 
     def run(self, ticks, paths, crash=None):
@@ -804,6 +806,13 @@ class Ref(object):
                 try:
                     self.calls = 0
                     more = False
+                    # external writes injected at the start of this tick (a field added to a share from outside)
+                    for itick, ipath, ifield, ivalue in self.prog.get("inject") or ():
+                        if itick == self.tick:
+                            ish = self.share(ipath)
+                            ish.extra[ifield] = ivalue
+                            ish.stamp = self.tick
+                            self.ev(["inject", ipath, ifield, ivalue])
                     for _ in range(len(ready)):
                         T, retime, period = ready.popleft()
                         if retime > self.now:
